@@ -47,7 +47,7 @@ type c13Res struct {
 type c13Delivery struct {
 	Noop bool     `json:"noop,omitempty"` // "D" event with nothing to deliver
 	ID   int      `json:"id"`
-	Same bool     `json:"same"` // the delivered context carries the very message that was sent
+	Same bool     `json:"same"` // the delivered context carries the very message that was sent, with its sender
 	Res  []c13Res `json:"res"`
 }
 
@@ -63,10 +63,11 @@ type c13Out struct {
 type c13Msg struct{ ID int }
 
 type c13Actor struct {
-	gate chan []string
-	done chan c13Delivery
-	mu   sync.Mutex
-	sent map[int]*c13Msg
+	gate   chan []string
+	done   chan c13Delivery
+	mu     sync.Mutex
+	sent   map[int]*c13Msg
+	sender *PID // every message of the case is sent by this actor
 }
 
 func (a *c13Actor) PreStart(*Context) error { return nil }
@@ -78,7 +79,7 @@ func (a *c13Actor) Receive(ctx *ReceiveContext) {
 	}
 	d := <-a.gate // closed gate: free run, no calls
 	a.mu.Lock()
-	same := a.sent[m.ID] == m
+	same := a.sent[m.ID] == m && a.sender != nil && ctx.Sender() != nil && ctx.Sender().Equals(a.sender)
 	a.mu.Unlock()
 	rec := c13Delivery{ID: m.ID, Same: same, Res: []c13Res{}}
 	self := ctx.Self()
@@ -106,6 +107,12 @@ func (a *c13Actor) Receive(ctx *ReceiveContext) {
 	}
 	a.done <- rec
 }
+
+type c13Sender struct{}
+
+func (*c13Sender) PreStart(*Context) error { return nil }
+func (*c13Sender) PostStop(*Context) error { return nil }
+func (*c13Sender) Receive(*ReceiveContext) {}
 
 func c13Quiesce(pid *PID) error {
 	deadline := time.Now().Add(30 * time.Second)
@@ -137,6 +144,15 @@ func c13RunCase(ctx context.Context, sys ActorSystem, c c13Case) c13Out {
 		return out
 	}
 	defer func() { _ = pid.Shutdown(ctx) }()
+	sender, err := sys.Spawn(ctx, fmt.Sprintf("c13s-%d", c.ID), &c13Sender{})
+	if err != nil {
+		out.Err = "spawn sender: " + err.Error()
+		return out
+	}
+	defer func() { _ = sender.Shutdown(ctx) }()
+	a.mu.Lock()
+	a.sender = sender
+	a.mu.Unlock()
 	const patience = 20 * time.Second
 	pending := 0
 loop:
@@ -147,7 +163,7 @@ loop:
 			a.mu.Lock()
 			a.sent[e.M] = m
 			a.mu.Unlock()
-			if err := Tell(ctx, pid, m); err != nil {
+			if err := sender.Tell(ctx, pid, m); err != nil {
 				out.Err = fmt.Sprintf("tell %d: %v", e.M, err)
 				break loop
 			}
